@@ -12,7 +12,7 @@ builder against the model with `F = Float32`, every split, context map and histo
 SPEC side: the hypothesis `MBOK` / `Covers` of `full_metablock_roundtrip` (third module) and, through it, the general
 RFC 7932 reader.
 -/
-import BV.Lemmas.GreedyOpt
+import BV.Lemmas.GreedyOptTotal
 import BV.Props.C01MetaBlockFull
 
 namespace BV.Props.C01Greedy
@@ -168,12 +168,21 @@ theorem optimize_histograms_keeps_wellformed (mbs mbs' : MBSplit) (A nd : Nat) (
     (hS : HSharp mbs) (h : optimizeHistograms nd mbs = .ok mbs') : Rewritten mbs mbs' A :=
   optimizeHistograms_rewritten mbs mbs' A nd hnd hA hM hS h
 
+/-- **optimize_histograms_total** — `BrotliOptimizeHistograms(num_distance_codes ≤ 544, mb)` ALWAYS returns on a well-formed
+`MetaBlockSplit` with histograms of the declared shapes (256 / 704 / 544 entries): none of the six loops of
+`BrotliOptimizeHuffmanCountsForRle` (count, trim, smallest, zero filling, `good_for_rle` marking with its backward runs,
+stride smoothing with its backward runs and the three-cell look-ahead of the limit) leaves the histogram or the 704-byte
+`good_for_rle` buffer. -/
+theorem optimize_histograms_total (mbs : MBSplit) (A nd : Nat) (hnd : nd ≤ 544) (hM : MBOK mbs A) (hS : HSharp mbs) :
+    ∃ mbs', optimizeHistograms nd mbs = .ok mbs' :=
+  optimizeHistograms_total mbs A nd hnd hM hS
+
 /-- **greedy_optimized_roundtrip** — the quality 4..9 pipeline of `WriteMetaBlockInternal` as `encode.rs` runs it:
 `BrotliBuildMetaBlockGreedy`, then `BrotliOptimizeHistograms(min(alphabet_size, 544), mb)`, then `BrotliStoreMetaBlock`.  Under
-the hypotheses of `greedy_metablock_roundtrip`: the builder does not panic, and for whatever `BrotliOptimizeHistograms`
-returns (its totality is not proved here: `_partial` in that respect only) the writer does not panic and the general RFC 7932
-reader reads the written bits back to what `replayCommands` produces from the commands. -/
-theorem greedy_optimized_roundtrip_partial {F : Type} (ops : FOps F) (hirr : OracleOK ops) (wo : WordOracle) (window : Nat)
+the hypotheses of `greedy_metablock_roundtrip` (none on the `MetaBlockSplit`, any float oracle with `OracleOK`): none of
+the three panics, and the general RFC 7932 reader reads the written bits back to what `replayCommands` produces from the
+commands (`hist ++ mb` when they replay to the input), stops exactly behind them and reports ISLAST as written. -/
+theorem greedy_optimized_roundtrip {F : Type} (ops : FOps F) (hirr : OracleOK ops) (wo : WordOracle) (window : Nat)
     (ring : Bytes) (start mask prevByte prevByte2 : Nat) (mb : Bytes) (isLast : Bool) (dp : DistP)
     (mode numContexts : Nat) (scm : List Nat) (cmds : List Cmd) (hist : Bytes) (dc : List Int) (w : List Bool)
     (hR : RingHolds ring mask start mb) (h256 : ∀ b ∈ mb, b < 256) (hh256 : ∀ b ∈ hist, b < 256)
@@ -188,23 +197,25 @@ theorem greedy_optimized_roundtrip_partial {F : Type} (ops : FOps F) (hirr : Ora
     (hcl2 : ∀ c ∈ cmds, copyLen c ≠ 0 → 2 ≤ copyLen c)
     (hlock : lockstep wo dp.npostfix dp.ndirect window mb ⟨hist, dc, 0⟩ 0 cmds = true)
     (hfa : faithful wo dp.npostfix dp.ndirect window mb hist ⟨hist, dc, 0⟩ cmds) :
-    ∃ mbs, buildGreedy ops ring start mask prevByte prevByte2 mode numContexts scm cmds = .ok mbs ∧
-      ∀ mbs', optimizeHistograms dp.alphabetSize mbs = .ok mbs' →
-        ∃ bits out ring',
-          storeMetaBlockFull ring start mb.length mask prevByte prevByte2 isLast dp mode cmds mbs' w = .ok (w ++ bits) ∧
-          replayCommands wo dp.npostfix dp.ndirect window mb dc hist cmds = some out ∧
-          (∀ rest, readMetaBlockFullG wo window dp.large w.length ⟨hist, dc⟩ (bits ++ rest)
-            = some (⟨out, ring'⟩, isLast, (w ++ bits).length, rest)) ∧
-          (replayCommands wo dp.npostfix dp.ndirect window mb dc hist cmds = some (hist ++ mb) → out = hist ++ mb) := by
+    ∃ mbs mbs' bits out ring',
+      buildGreedy ops ring start mask prevByte prevByte2 mode numContexts scm cmds = .ok mbs ∧
+      optimizeHistograms dp.alphabetSize mbs = .ok mbs' ∧
+      storeMetaBlockFull ring start mb.length mask prevByte prevByte2 isLast dp mode cmds mbs' w = .ok (w ++ bits) ∧
+      replayCommands wo dp.npostfix dp.ndirect window mb dc hist cmds = some out ∧
+      (∀ rest, readMetaBlockFullG wo window dp.large w.length ⟨hist, dc⟩ (bits ++ rest)
+        = some (⟨out, ring'⟩, isLast, (w ++ bits).length, rest)) ∧
+      (replayCommands wo dp.npostfix dp.ndirect window mb dc hist cmds = some (hist ++ mb) → out = hist ++ mb) := by
   obtain ⟨mbs, e, hM, hcL, hcI, hcD, hS⟩ := buildGreedy_ok' ops hirr ring start mask prevByte prevByte2 mode numContexts scm cmds mb
     hist dp.alphabetSize dp.npostfix dp.ndirect hR h256 hh256 (by unfold two64; simpa using h64) hprev hmode hst hA544 hok hcl2
     (lockstep_le wo dp.npostfix dp.ndirect window mb cmds _ 0 hlock).2 hsz1 hsz2
-  refine ⟨mbs, e, fun mbs' ho => ?_⟩
+  obtain ⟨mbs', ho⟩ := optimizeHistograms_total mbs dp.alphabetSize dp.alphabetSize hA544 hM hS
   have hr := optimizeHistograms_rewritten mbs mbs' dp.alphabetSize dp.alphabetSize (Nat.le_refl _) hA544 hM hS ho
   obtain ⟨hM', hcL', hcI', hcD'⟩ := BV.Greedy.rewritten_histograms_wellformed mbs mbs' dp.alphabetSize mode hist mb cmds hr hM hcL
     hcI hcD
-  exact BV.Props.C01MetaBlockFull.full_metablock_roundtrip wo window ring start mask prevByte prevByte2 mb isLast dp mode cmds
-    mbs' hist dc w hR h256 hh256 h1 (by omega) h64 hIP hprev hmode hnp hnd1 hnd2 hA hA544 hok hcl2 hlock hfa hM' hcL' hcI' hcD'
+  obtain ⟨bits, out, ring', a1, a2, a3, a4⟩ := BV.Props.C01MetaBlockFull.full_metablock_roundtrip wo window ring start mask prevByte
+    prevByte2 mb isLast dp mode cmds mbs' hist dc w hR h256 hh256 h1 (by omega) h64 hIP hprev hmode hnp hnd1 hnd2 hA hA544 hok hcl2
+    hlock hfa hM' hcL' hcI' hcD'
+  exact ⟨mbs, mbs', bits, out, ring', e, ho, a1, a2, a3, a4⟩
 
 /-! ### non-vacuity -/
 
